@@ -120,7 +120,7 @@ def run(cx):
     r6(cx)
 
 
-def r6(cx):
+def r6(cx, rule="C12.R6", only=None, floor=12):
     from rules.c10 import sqlite_updated_columns, mem_doc_keys
     m = cx.m
     live = {"task": "acts::scheduler::process::task::Task", "proc": "acts::scheduler::process::process::Process"}
@@ -133,10 +133,12 @@ def r6(cx):
             # only what can change after the first insert has to be rewritten: the live cell is behind a lock / atomic
             if ty is None or not re.search(r"RwLock|Mutex|Atomic", ty):
                 continue
-            cx.ob("C12.R6", "kept-current:%s:%s" % (c, fld), fld in upd and fld in keys,
+            if only is not None and (c, fld) not in only:
+                continue
+            cx.ob(rule, "kept-current:%s:%s" % (c, fld), fld in upd and fld in keys,
                   "the `%s` of a %s, a cell that changes while the process runs and that the loader restores, is rewritten by every update of its row (SQLite UPDATE: %s, memory document: %s)" % (
                       fld, c, "yes" if fld in upd else "NO - the column keeps the value of the first insert (made when the task was pushed, before init)", "yes" if fld in keys else "NO"), site.loc)
-    cx.floor("C12.R6", 12)
+    cx.floor(rule, floor)
 
 
 def _matches(where_set, want):
